@@ -27,6 +27,7 @@ Params g_params;
 static std::vector<uint8_t> g_cur;       // bytes of the case being executed
 static std::string g_crashfile;          // where to dump g_cur if the process dies
 
+extern "C" __attribute__((weak)) int __lsan_do_recoverable_leak_check();
 static std::string g_crashdesc, g_crashmsg;
 static CaseInfo* g_cur_ci = nullptr;     // for printing the partial description if the case crashes
 static bool g_print_desc_on_crash = false;
@@ -237,6 +238,7 @@ static void worker(uint64_t seed, uint64_t ncases, unsigned W, unsigned w, unsig
   for (auto& s : a.samples) { std::string e = jesc(s); fprintf(f, "S %s\n", e.c_str()); }
   fclose(f);
   write_file(path + ".hash", a.hashes.data(), a.hashes.size() * 8);
+  if (getenv("VERIF_LEAKCHECK") && __lsan_do_recoverable_leak_check) __lsan_do_recoverable_leak_check();
   _exit(0);
 }
 
